@@ -114,6 +114,20 @@ class CFG:
                     todo.append(m)
         return seen
 
+    def reach_filtered(self, starts, edge_ok):
+        """reachability following only edges for which edge_ok(node, label, succ) is true"""
+        seen = set()
+        todo = list(starts)
+        while todo:
+            n = todo.pop()
+            if n.id in seen:
+                continue
+            seen.add(n.id)
+            for lab, m in n.succ:
+                if m.id not in seen and edge_ok(n, lab, m):
+                    todo.append(m)
+        return seen
+
     def path_to(self, start, goal_ids, blocked_edges=(), blocked_nodes=()):
         """One shortest path (list of (node,label)) from start to any goal, or None."""
         be = set(blocked_edges)
